@@ -125,6 +125,8 @@ def run_property(pid, module, tier, facts=None, write=True, replay=None):
             lines.append('REPLAY: rule instance %s no longer produced (holds, or construct is gone)' % want)
     for r, what in known_hits:
         lines.append('KNOWN-FINDING: property=%s %s [%s]' % (pid, what, r.key))
+    if not write:
+        return lines, violations, known_hits, None, results
     os.makedirs(REPLAY_DIR, exist_ok=True)
     # stale replay files of this property are removed so the directory reflects this run
     for f in os.listdir(REPLAY_DIR):
